@@ -82,7 +82,7 @@ def routes(dom, bnd=(-3, 7)):
 
 def run(rep: vk.Report):
     vk.proof_stage(rep, "C18")
-    from optyx import Problem, Variable
+    from optyx import Problem, Variable, VectorVariable
     from optyx.core.errors import IntegerVariableError, NonLinearError, NoObjectiveError
     from optyx.solution import SolverStatus
     cases = Cases("gate", IMPORTS, CASE_TYPE, CHECKER, defs=DEFS)
@@ -129,8 +129,14 @@ def run(rep: vk.Report):
             except NoObjectiveError:
                 return "PyNoObjective"
 
-    def build(dom, rname, linear, bnd=(-3, 7)):
+    def build(dom, rname, linear, bnd=(-3, 7), alone=False):
         elems, vec, scal = routes(dom, bnd)[rname]
+        if alone and vec is not None:
+            # the whole problem lives on this one view: objective and constraint are reductions over it, nothing else is mentioned
+            body = vec.sum() if linear else (vec ** 2).sum()
+            P = Problem().minimize(body)
+            P.subject_to(vec.sum() >= -2)
+            return P, elems
         c = Variable("c_cont", lb=0, ub=5)
         if scal is not None:
             body = scal * 2 + c if linear else scal ** 2 + c
@@ -162,6 +168,22 @@ def run(rep: vk.Report):
         add_case(P, m, strict, seen, {"domain": dom, "route": rname, "linear": linear, "method": m, "strict": strict, "history": [],
                                       "declared_bounds": list(bnd)},
                  {dom, rname, str(linear), m, str(strict), str(bnd)})
+    # problems that consist of ONE view of an integer / binary vector or matrix and nothing else (strided and reversed views included)
+    extra_routes = {"strided_slice": lambda dom: VectorVariable("x", 5, lb=-3, ub=7, domain=dom)[::2],
+                    "odd_slice": lambda dom: VectorVariable("x", 5, lb=-3, ub=7, domain=dom)[1::2],
+                    "reversed": lambda dom: VectorVariable("x", 4, lb=-3, ub=7, domain=dom)[::-1]}
+    for dom, rname, linear, m, strict in itertools.product(["integer", "binary"], ["vector", "slice", "reversed_slice", "matrix_row", "matrix_col",
+                                                                                   "diagonal", "strided_slice", "odd_slice", "reversed"],
+                                                           [True, False], ["auto", "linprog", "highs", "SLSQP", "L-BFGS-B"], [True, False]):
+        if rname in extra_routes:
+            vec = extra_routes[rname](dom)
+            P = Problem().minimize(vec.sum() if linear else (vec ** 2).sum())
+            P.subject_to(vec.sum() >= -2)
+        else:
+            P, _ = build(dom, rname, linear, alone=True)
+        seen = observe(P, m, strict, rname + " (alone)")
+        add_case(P, m, strict, seen, {"domain": dom, "route": rname + " (the whole problem)", "linear": linear, "method": m, "strict": strict,
+                                      "history": []}, {dom, rname, "alone", str(linear), m, str(strict)})
     # strict / the warning are per CALL, not per problem: the same Problem solved repeatedly with changing flags and methods;
     # every solve of the history is compared with the model's answer for that call alone
     hist_routes = ["scalar", "vector", "reversed_slice", "matrix_col", "symmetric_col"]
